@@ -1,6 +1,7 @@
 from __future__ import annotations
 
 from abc import ABC, abstractmethod
+from copy import copy
 import re
 import types
 from typing import (
@@ -528,7 +529,10 @@ class SigmaExpandModifier(
     def modify(
         self, val: SigmaString | SigmaRegularExpression
     ) -> SigmaString | SigmaRegularExpression:
-        return val.insert_placeholders()
+        # insert_placeholders() changes the string in place. The value object is shared with
+        # the original_value list of the detection item that is used for conversion back to plain
+        # data types, therefore work on a copy.
+        return copy(val).insert_placeholders()
 
 
 class SigmaTimestampModifier(SigmaValueModifier[SigmaNumber, SigmaTimestampPart]):
